@@ -12,6 +12,7 @@ from __future__ import annotations
 
 import ast
 
+from pv.q import text as qtext
 from pv.model import AnalysisError, walk_no_nested, params, UNKNOWN
 from pv.norm import Normalizer, Poly, single_defs
 from pv.q import has_stmt, has_if, find_if, returns, body_texts, order_of
@@ -36,7 +37,7 @@ def rule_kernel(model, rep):
         rep.check(ok, R, site(name), ast.unparse(v[0]) if v else "<none>", f"{name} = struct.Struct({fmt!r}).{meth}",
                   witness="counter / truncated value use the wrong width or byte order: every token differs from the RFC's")
     sd = single_defs(fn)
-    t = ast.unparse(fn)
+    t = qtext(fn)
     rep.check("keyed_hmac = self._keyed_hmac = compile_hmac(self.alg, self.key)" in t, R, s, "compile_hmac(self.alg, self.key)", "HMAC is keyed with the object's algorithm and raw key")
     rep.check(has_stmt(fn, "digest = keyed_hmac(_pack_uint64(counter))"), R, s, "digest = keyed_hmac(_pack_uint64(counter))", "HMAC input is the 8-byte big-endian counter")
     # offset
@@ -72,8 +73,8 @@ def rule_kernel(model, rep):
     fn = model.func(T, "TOTP.__init__")
     rep.check(has_if(fn, "digits < 6 or digits > 10", ["raise ValueError('digits must in range(6,11)')"]), R, site("TOTP.__init__"), "6 <= digits <= 10", "digit count restricted to 6..10 (31-bit value has 10 digits)",
               witness="digits=11 accepted: the token can never have 11 significant digits")
-    rep.check(has_if(fn, "period is not None") and "self._check_serial(period, 'period', minval=1)" in ast.unparse(fn), R, site("TOTP.__init__"), "period >= 1", "period validated as integer >= 1")
-    rep.check("info = lookup_hash(alg or self.alg)" in ast.unparse(fn) and "self.alg = info.name" in ast.unparse(fn), R, site("TOTP.__init__"), "alg normalised through lookup_hash", "algorithm name canonicalised")
+    rep.check(has_if(fn, "period is not None") and "self._check_serial(period, 'period', minval=1)" in qtext(fn), R, site("TOTP.__init__"), "period >= 1", "period validated as integer >= 1")
+    rep.check("info = lookup_hash(alg or self.alg)" in qtext(fn) and "self.alg = info.name" in qtext(fn), R, site("TOTP.__init__"), "alg normalised through lookup_hash", "algorithm name canonicalised")
 
 
 def rule_time(model, rep):
@@ -115,7 +116,7 @@ def rule_keys(model, rep):
     # b32decode: translate (typo correction 8->B 0->O) applies to bytes input too, upper-cased, padded
     B = "passlib.utils.binary"
     fn = model.func(B, "b32decode")
-    t = ast.unparse(fn)
+    t = qtext(fn)
     tr = [n for n in walk_no_nested(fn) if isinstance(n, ast.Call) and isinstance(n.func, ast.Attribute) and n.func.attr == "translate"]
     unitb = model.unit(B)
     ok = len(tr) == 1 and unitb.enclosing(tr[0], ast.If) is None
